@@ -122,7 +122,8 @@ func runC04(c *mon.Ctx) {
 					"correct": correct, "correct+1": ref.AddR(correct, bigOne), "zero": new(big.Int), "neighbour-point": ref.EvalPoly(coeffs, nb),
 					"f[point mod 256]": v[new(big.Int).Mod(z, big.NewInt(256)).Int64()], "random": randBig(rng, ref.R),
 				}
-				for rname, res := range results {
+				for _, rname := range sortedKeys(results) {
+					res := results[rname]
 					wantAccept := res.Cmp(correct) == 0
 					var ok bool
 					var verr error
